@@ -156,6 +156,10 @@ def no_redef_between(f, local, guard_blk, guard_succ, use_blk):
 def auto_discharge(f, sy, e):
     """returns (code, reason) or None"""
     t = e["t"]
+    if t["t"] == "call" and callee_of(t).split("::")[-1] in ("index", "index_mut") and len(t["args"]) == 2:
+        rg = canon(strip(sy.operand(t["args"][1])))
+        if rg.startswith("core::ops::RangeFull"):
+            return ("D0", "`[..]` selects the whole array or slice: no bound to exceed")
     if t["t"] == "assert":
         m = t["msg"]
         if m["a"] in ("div0", "rem0"):
